@@ -13,7 +13,8 @@ from vmon.wsgi import make_environ, call_app, RecStream
 RULE = ('grid cells (size, max_body_size L, max_memfile_size B, framing, content kind), sizes in {0,1,L-1,L,L+1,L+B-1,L+B,L+B+1,10L} (relative to B '
         'when there is no limit), L in {None,0,1,17,100,4096}, B in {1,16,100,4096}; each cell is one request through Ombott.__call__ whose handler '
         'reads the body the way the content kind asks. Non-trivial = the size is within one buffer of a limit or above it; distinct = distinct cell.')
-REQUIRED = ['limits_given_to_ctor', 'limits_given_to_setup', 'limits_given_to_resetup', 'chunked_with_misleading_content_length', 'multipart_text_over_threshold_in_several_fields', 'rejected_413', 'accepted_within_limit', 'spooled_to_disk', 'kept_in_memory', 'consumption_checked', 'chunked_cells', 'cl_cells',
+PYOPT = {'quick': 1, 'thorough': 1}     # one unit of every kind is also served by an interpreter started with -O (assert statements compiled out)
+REQUIRED = ['units_run_under_python_-O', 'limits_given_to_ctor', 'limits_given_to_setup', 'limits_given_to_resetup', 'chunked_with_misleading_content_length', 'multipart_text_over_threshold_in_several_fields', 'rejected_413', 'accepted_within_limit', 'spooled_to_disk', 'kept_in_memory', 'consumption_checked', 'chunked_cells', 'cl_cells',
             'urlencoded_refused_over_threshold', 'multipart_text_refused_over_threshold', 'multipart_file_over_threshold_delivered',
             'content_compared', 'exactly_at_limit_accepted', 'one_over_limit_rejected']
 EXHAUSTIVE = {'quick': False, 'thorough': False, 'quick_note': 'the grid units enumerate the grid without L=4096/B=4096 completely; random units add seeded off-grid cells', 'thorough_note': 'the grid units enumerate the whole grid completely; random units add seeded off-grid cells'}
